@@ -83,19 +83,43 @@ impl AFmt {
             AFmt::Cram => "Cram",
         }
     }
-
-    /// (path extension used with `build_from_path`, or None if the writer builder cannot select
-    /// this pair from a path)
-    pub fn path_ext(self) -> Option<&'static str> {
-        match self {
-            AFmt::Sam => Some("sam"),
-            AFmt::SamGz => Some("sam.gz"),
-            AFmt::Bam => Some("bam"),
-            AFmt::BamRaw => None,
-            AFmt::Cram => Some("cram"),
-        }
-    }
 }
+
+/// File names for the writer's `build_from_path` (no `set_format`) and the (format, compression) they must
+/// select, as indices into `AFMTS`. Rule (the builder's documentation: "detected from the path extension"): the
+/// *last* extension decides — sam, bam, cram; gz/bgz after a stem ending in "sam" = bgzipped SAM; dots elsewhere in
+/// the file name or in directory names mean nothing. Established on the unchanged tree and pinned: no extension,
+/// an unknown extension and an upper-case extension (matching is case sensitive) fall back to the documented
+/// default format SAM, with BGZF iff the last extension is gz/bgz/bam.
+pub const PATH_CASES: &[(&str, usize)] = &[
+    ("out.sam", 0),
+    ("out.sam.gz", 1),
+    ("out.bam", 2),
+    ("out.cram", 4),
+    ("out.sam.bgz", 1),
+    ("sample.chr20.bam", 2),
+    ("NA12878.chr20.sorted.bam", 2),
+    ("reads.v2.sorted.cram", 4),
+    ("a.b.cram", 4),
+    ("a.b.sam", 0),
+    ("x.y.sam.gz", 1),
+    ("x.bam.sam.gz", 1),
+    ("my.sam.bam", 2),
+    ("my.bam.sam", 0),
+    ("my.cram.sam", 0),
+    ("my.sam.cram", 4),
+    ("cram.bam", 2),
+    ("bam.cram", 4),
+    ("sam.gz.bam", 2),
+    ("dir.bam/out.sam", 0),
+    ("dir.sam/out.cram", 4),
+    ("dir.cram/sub.sam.gz/x.bam", 2),
+    ("dir.sam/noext", 0),
+    ("noext", 0),
+    ("out.txt", 0),
+    ("OUT.BAM", 0),
+    ("reads.gz", 1),
+];
 
 // ---------------------------------------------------------------------------------------------
 // descriptions (plain data owned by the harness)
@@ -399,6 +423,19 @@ fn rand_str(rng: &mut Rng, chars: &[u8], lo: usize, hi: usize) -> String {
     (0..n).map(|_| *rng.pick(chars) as char).collect()
 }
 
+/// One third "nice" values, two thirds over the full finite bit-pattern range (NaN and the infinities: see
+/// the class `nonfinite-floats`).
+fn aux_f32(rng: &mut Rng) -> f32 {
+    if rng.chance(1, 3) { rng.range(-4000, 4000) as f32 / 16.0 } else { crate::flt::wide_f32(rng) }
+}
+
+/// B:f entries: also the canonical NaN and the infinities, which every format carries in arrays (established
+/// with the probe class `nonfinite-floats`). The SAM writer rejects them as a *scalar* `f` value ("invalid
+/// float"), so scalars stay finite.
+fn aux_f32_arr(rng: &mut Rng) -> f32 {
+    if rng.chance(1, 30) { *rng.pick(&[f32::NAN, f32::INFINITY, f32::NEG_INFINITY]) } else { aux_f32(rng) }
+}
+
 fn rand_aux(rng: &mut Rng, read_groups: &[String], long: bool) -> Vec<([u8; 2], Aux)> {
     let mut out: Vec<([u8; 2], Aux)> = Vec::new();
     if long {
@@ -417,7 +454,7 @@ fn rand_aux(rng: &mut Rng, read_groups: &[String], long: bool) -> Vec<([u8; 2], 
         }
         if rng.chance(1, 2) {
             let n = rng.urange(20, 80);
-            out.push((*b"YF", Aux::FloatArr((0..n).map(|_| rng.range(-4000, 4000) as f32 / 16.0).collect())));
+            out.push((*b"YF", Aux::FloatArr((0..n).map(|_| aux_f32_arr(rng)).collect())));
         }
     }
     let n = match rng.below(4) {
@@ -455,10 +492,10 @@ fn rand_aux(rng: &mut Rng, read_groups: &[String], long: bool) -> Vec<([u8; 2], 
             9 => arr(rng, 'S', 0, 65535),
             10 => arr(rng, 'i', -2147483648, 2147483647),
             11 => arr(rng, 'I', 0, 4294967295),
-            12 => Aux::Float(rng.range(-4000, 4000) as f32 / 8.0),
+            12 => Aux::Float(aux_f32(rng)),
             _ => {
                 let n = rng.urange(1, 5);
-                Aux::FloatArr((0..n).map(|_| rng.range(-4000, 4000) as f32 / 16.0).collect())
+                Aux::FloatArr((0..n).map(|_| aux_f32_arr(rng)).collect())
             }
         };
         out.push((tag, v));
@@ -590,12 +627,11 @@ fn rand_record(rng: &mut Rng, idx: usize, refs: &[RefDesc], rgs: &[String], o: &
         // in the common model an unmapped read carries none
         mapq = None;
         let r = if refs.is_empty() { 0 } else { rng.usize_below(refs.len()) };
-        // placed unmapped read (at its mate's position); it stays inside the reference: a read hanging
-        // over the reference end makes the CRAM writer panic (witness class
+        // placed unmapped read (at its mate's position), also hanging over the reference end (regression class
         // `witness-placed-unmapped-read-overhanging-reference-end`)
-        if o.placed_unmapped && !refs.is_empty() && n <= refs[r].seq.len() && rng.chance(1, 3) {
+        if o.placed_unmapped && !refs.is_empty() && rng.chance(1, 3) {
             rid = Some(r);
-            pos = Some(rng.urange(1, refs[r].seq.len() - n + 1));
+            pos = Some(rng.urange(1, refs[r].seq.len()));
         } else {
             rid = None;
             pos = None;
@@ -780,7 +816,7 @@ pub const DET_CLASSES: &[&str] = &[
     "headerless-qname-CRA",
     "headerless-qname-CRA_M",
     "headerless-qname-C",
-    // minimal set for a shape the random part avoids (read names are generated as r<index>...)
+    // minimal set for a shape the random part avoids (read names are generated as r<index>...), and a regression set
     "witness-headerless-sam-qname-starts-with-CRAM",
     "witness-placed-unmapped-read-overhanging-reference-end",
 ];
@@ -898,6 +934,23 @@ pub fn make_set(class: &str, seed: u64) -> ASet {
             r.rid = Some(0);
             r.pos = Some(91);
             (header_text(&refs, Some("@HD\tVN:1.6"), &[], false), refs, vec![r])
+        }
+        // probe (not part of any run; `bisect=alignment:nonfinite-floats:1:<fmt>`): what each format does with
+        // NaN and the infinities
+        "nonfinite-floats" => {
+            let u = GenOpts { mapped: false, unmapped: true, placed_unmapped: false, max_read: 20, aux: false, long: false };
+            let recs = [f32::NAN, f32::INFINITY, f32::NEG_INFINITY]
+                .iter()
+                .enumerate()
+                .flat_map(|(i, &x)| {
+                    let mut a = rand_record(rng, 2 * i, &[], &[], &u);
+                    a.aux = vec![(*b"XF", Aux::Float(x))];
+                    let mut b = rand_record(rng, 2 * i + 1, &[], &[], &u);
+                    b.aux = vec![(*b"XG", Aux::FloatArr(vec![1.0, x]))];
+                    [a, b]
+                })
+                .collect();
+            (String::new(), Vec::new(), recs)
         }
         c => panic!("unknown alignment set class {c}"),
     };
